@@ -14,7 +14,10 @@ import (
 
 	. "vh/lib"
 
+	"net/http"
+
 	"github.com/cnotch/ipchub/network/socket/listener"
+	"github.com/cnotch/ipchub/service"
 	"github.com/cnotch/ipchub/service/rtsp"
 )
 
@@ -259,9 +262,42 @@ type accepted struct {
 	conn net.Conn
 }
 
+type httpSeen struct {
+	method, uri string
+	body        []byte
+}
+
 type realMux struct {
-	l   *listener.Listener
-	acc chan accepted
+	addr string
+	acc  chan accepted
+	reqs chan httpSeen
+}
+
+// prodMux runs service.listen itself (hook service.VerifListen): the real
+// registration of the matchers, a tcp.Server for RTSP and an http.Server for HTTP.
+func newProdRealMux() *realMux {
+	probe, err := net.Listen("tcp", "127.0.0.1:0")
+	if err != nil {
+		panic(err)
+	}
+	addr := probe.Addr().(*net.TCPAddr)
+	_ = probe.Close()
+	m := &realMux{addr: addr.String(), acc: make(chan accepted, 16), reqs: make(chan httpSeen, 16)}
+	service.VerifListen(addr,
+		func(c net.Conn) { m.acc <- accepted{0, c} },
+		http.HandlerFunc(func(w http.ResponseWriter, r *http.Request) {
+			body, _ := io.ReadAll(r.Body)
+			m.reqs <- httpSeen{r.Method, r.RequestURI, body}
+			w.WriteHeader(204)
+		}))
+	for i := 0; i < 200; i++ { // listen() starts Serve asynchronously
+		if c, err := net.Dial("tcp", m.addr); err == nil {
+			_ = c.Close()
+			break
+		}
+		time.Sleep(5 * time.Millisecond)
+	}
+	return m
 }
 
 var realMuxes = map[int64]*realMux{}
@@ -273,6 +309,11 @@ func getRealMux(timeoutMs int64) *realMux {
 	if m, ok := realMuxes[timeoutMs]; ok {
 		return m
 	}
+	if timeoutMs < 0 {
+		m := newProdRealMux()
+		realMuxes[timeoutMs] = m
+		return m
+	}
 	l, err := listener.New("127.0.0.1:0", nil)
 	if err != nil {
 		panic(err)
@@ -281,7 +322,7 @@ func getRealMux(timeoutMs int64) *realMux {
 		l.SetReadTimeout(time.Duration(timeoutMs) * time.Millisecond)
 	}
 	l.HandleError(func(error) bool { return true })
-	m := &realMux{l: l, acc: make(chan accepted, 16)}
+	m := &realMux{addr: l.Addr().String(), acc: make(chan accepted, 16), reqs: make(chan httpSeen)}
 	stub := func(svc int) func(net.Listener) error {
 		return func(sl net.Listener) error {
 			for {
@@ -322,7 +363,7 @@ func loopCase(c Val) Val {
 	rsize := int(c.At(6).Int())
 	silent := c.At(7).Bool()
 
-	cl, err := net.Dial("tcp", m.l.Addr().String())
+	cl, err := net.Dial("tcp", m.addr)
 	if err != nil {
 		panic(err)
 	}
@@ -386,6 +427,14 @@ func loopCase(c Val) Val {
 		}
 		_ = a.conn.Close()
 		<-closedByServer
+	case h := <-m.reqs:
+		// production http.Server: the request as parsed must be the one sent
+		dec, handed = 1, 1
+		line := strings.SplitN(strings.SplitN(string(payload), "\r\n", 2)[0], " ", 3)
+		hdrEnd := bytes.Index(payload, []byte("\r\n\r\n"))
+		if len(line) == 3 && hdrEnd >= 0 && h.method == line[0] && h.uri == line[1] && bytes.Equal(h.body, payload[hdrEnd+4:]) {
+			got = payload
+		}
 	case <-closedByServer:
 	case <-time.After(5 * time.Second):
 		return L(I(-9), I(0), I(0), I(0))
@@ -401,4 +450,3 @@ func loopCase(c Val) Val {
 	return L(I(dec), I(handed), I(int64(len(got))), Bo(eq))
 }
 
-var _ = strings.ToUpper
